@@ -143,6 +143,14 @@ def build_network(desc: dict):
         nn.get_allowed_cooling = tp.get_allowed_cooling
         if desc.get("cooling"):
             kw["cooling"] = list(desc["cooling"])
+    if desc.get("ode_modifier") and len(desc["reactions"]) % 2 == 0:
+        # the same modifiers set after construction, read-modify-write through the property, one species at a time
+        net = Network(reacs, required_species=list(desc.get("required", [])), **kw)
+        for sname, spec in desc["ode_modifier"].items():
+            o_ = net.ode_modifier
+            o_[sname] = spec
+            net.ode_modifier = o_
+        return net
     net = Network(reacs, required_species=list(desc.get("required", [])), ode_modifier=desc.get("ode_modifier") or None, **kw)
     return net
 
